@@ -480,9 +480,9 @@ Definition write_cf (prev : Z) (fs : list Z) (stop : Z) (s : state) : state * bo
       | Some (_, endh) =>
         let start := endh - (n - 1) in
         if start <? 0 then (s, false) else
-        (* FilterHeaders.WriteHeaders is positional: well-formed iff the batch
-           lands exactly above the current filter tip *)
-        let s1 := if start =? zlen (fchain s) then set_fchain (fchain s ++ fs) s else set_trap s in
+        (* F26 fixed: the batch must land exactly above the current filter tip *)
+        if negb (start =? zlen (fchain s)) then (s, false) else
+        let s1 := set_fchain (fchain s ++ fs) s in
         let s2 := set_ftip endh s1 in
         let evs := map (fun i => match at_h (chain s) (start + Z.of_nat i) with
                                  | Some h => EConn (hid h) (start + Z.of_nat i)
